@@ -92,3 +92,21 @@ def letter_char(v):
 def make_unit_value(number, unit):
     from recognizers_number_with_unit.number_with_unit.parsers import UnitValue
     return UnitValue(number, unit)
+
+
+def repo_const(target, attr):
+    import importlib
+    path, cls = target.split('::')
+    parts = path[:-3].split('/')
+    mod = importlib.import_module('.'.join(parts[3:]))       # Python/libraries/<package dir>/<module path>
+    return getattr(getattr(mod, cls), attr)
+
+
+def char_pred(name, c):
+    if name == 'isemoji':
+        from recognizers_text.utilities import StringUtility
+        return StringUtility.is_emoji(c)
+    if name == 'issep':
+        import regex
+        return regex.search('[^\\w\\d]', c, flags=regex.S) is not None
+    raise NotImplementedError(name)
